@@ -27,6 +27,8 @@ func c11(c *eng.Ctx, r *eng.Report) {
 		"R11.11 a precompile runs only after the caller paid for it, and the price compared with the supplied gas is RequiredGas(input) itself — no unchecked arithmetic between pricing and the affordability test (the precompiles size their allocations from the input on the strength of that price: MODEXP allocates what the header announces); " +
 		"R11.12 no opcode handler slices a buffer with a bound that is the unchecked 64-bit sum or product of operand-derived values (`buf[off:off+len]` wraps for off near 2^64 and the slice expression panics): such bounds come out of 256-bit arithmetic with Uint64WithOverflow, SafeAdd/SafeMul, or the clamping accessor getData; " +
 		"R11.13 every modular exponentiation in package vm whose modulus comes from the input runs only after the modulus was tested non-zero (big.Int.Exp with m == 0 is plain exponentiation: priced as modular work it neither terminates nor bounds its allocation); " +
+		"R11.14 a 256-bit operand is unsigned: outside the signed opcodes (SAR, SDIV, SMOD, SLT, SGT, SIGNEXTEND), wherever package vm tests (*uint256.Int).Sign() it is for (in)equality with zero — Sign() returns -1 for every value of 2^255 or more, so `Sign() > 0` takes such a value for zero (a CALLCODE carrying it is priced as a call without value yet still receives the stipend: gas is minted and a loop never runs out); " +
+		"R11.15 the jump-destination analysis is cached under the hash of the code it was made for: at every SetCallCode the code hash and the code are read from the same account (CALLCODE runs the callee's code on the caller's account; keying the callee's code under the caller's hash validates its jumps against a bitmap of another length — index out of range); " +
 		"Not decided: termination as such, exact gas values."
 	r.Assume = []string{"memory is grown only by Run (mem.Resize) to the size computed by the row's memorySize function", "no recover() exists in vm/executor/core, so a reachable panic crashes the host"}
 	rows := analyseRows(c, r, "R11.1")
@@ -43,6 +45,8 @@ func c11(c *eng.Ctx, r *eng.Report) {
 	c11PrecompileGas(c, r)
 	c11SliceBounds(c, r, rows)
 	c11ModulusNonZero(c, r)
+	c11UnsignedSign(c, r)
+	c11CodeHashOfCode(c, r)
 	// R11.9 write attempts in read-only context surface as a failed call: the interpreter refuses
 	// write rows under the *sticky* in.readOnly flag before executing them (shared with C12 R12.2/R12.3)
 	if run := c.Func("vm", "(*EVMInterpreter).Run"); r.Anchor(run != nil, "R11.9", "vm.(*EVMInterpreter).Run") {
@@ -1226,4 +1230,83 @@ func c11ModulusNonZero(c *eng.Ctx, r *eng.Report) {
 		}
 	}
 	r.Check(n >= 1, rule, "modexp:sites", "", fmt.Sprintf("%d modular exponentiations with an input-supplied modulus", n), "no big.Int.Exp with a modulus found in package vm (bigModExp.Run expected)")
+}
+
+// c11UnsignedSign: uint256.Int.Sign interprets the word as two's complement.
+func c11UnsignedSign(c *eng.Ctx, r *eng.Report) {
+	const rule = "R11.14"
+	r.Min(rule, 2)
+	n := 0
+	for _, fn := range c.PkgFuncs("vm") {
+		if c.IsTestFunc(fn) {
+			continue
+		}
+		// the signed opcodes (SAR, SDIV, SMOD, SLT, SGT, SIGNEXTEND) read the sign bit on purpose
+		switch fn.Name() {
+		case "opSAR", "opSdiv", "opSmod", "opSlt", "opSgt", "opSignExtend":
+			continue
+		}
+		i := 0
+		for _, b := range fn.Blocks {
+			for _, in := range b.Instrs {
+				bo, ok := in.(*ssa.BinOp)
+				if !ok {
+					continue
+				}
+				var call *ssa.Call
+				var other ssa.Value
+				if cl, isC := bo.X.(*ssa.Call); isC {
+					call, other = cl, bo.Y
+				} else if cl, isC := bo.Y.(*ssa.Call); isC {
+					call, other = cl, bo.X
+				}
+				if call == nil || !strings.HasSuffix(eng.CallName(&call.Call), "uint256.Int).Sign") {
+					continue
+				}
+				n++
+				k, isK := eng.ConstInt(other)
+				key := fmt.Sprintf("uint256-sign:%s#%d", eng.FuncName(fn), i)
+				i++
+				r.Check(isK && k == 0 && (bo.Op == token.EQL || bo.Op == token.NEQ), rule, key, c.Pos(bo.Pos()), "Sign() compared with zero for (in)equality", fmt.Sprintf("%s compares (*uint256.Int).Sign() with `%s %s`: Sign() is -1 for values of 2^255 and above, so this test treats such an operand as zero/negative — e.g. CALLCODE with value >= 2^255 skips the value-transfer surcharge but still gets the 2300 stipend back, leaving more gas than was supplied", eng.FuncName(fn), bo.Op, eng.Desc(other)))
+			}
+		}
+	}
+	r.Check(n >= 2, rule, "uint256-sign:sites", "", fmt.Sprintf("%d comparisons of uint256 Sign()", n), fmt.Sprintf("only %d comparisons of (*uint256.Int).Sign() found in package vm", n))
+}
+
+// c11CodeHashOfCode: see R11.15.
+func c11CodeHashOfCode(c *eng.Ctx, r *eng.Report) {
+	const rule = "R11.15"
+	r.Min(rule, 3)
+	n := 0
+	for _, fn := range c.PkgFuncs("vm") {
+		if c.IsTestFunc(fn) {
+			continue
+		}
+		i := 0
+		for _, s := range eng.Sites(fn) {
+			if !strings.HasSuffix(s.Name(), "Contract).SetCallCode") || len(s.Common().Args) < 4 {
+				continue
+			}
+			n++
+			key := fmt.Sprintf("code-hash-of-code:%s#%d", eng.FuncName(fn), i)
+			i++
+			hashArg, codeArg := s.Common().Args[2], s.Common().Args[3]
+			acct := func(v ssa.Value, method string) string {
+				call, ok := v.(*ssa.Call)
+				if !ok || !call.Call.IsInvoke() || call.Call.Method.Name() != method || len(call.Call.Args) < 1 {
+					return ""
+				}
+				return eng.Desc(eng.ResolveLocal(call.Call.Args[0])) // `addrCopy := addr` is the same account
+			}
+			ha, ca := acct(hashArg, "GetCodeHash"), acct(codeArg, "GetCode")
+			if ha == "" || ca == "" {
+				// create: hash computed from the init code itself, or an empty hash
+				r.Pass(rule, key, c.Pos(s.Pos()), "hash and code are not both read from accounts here ("+eng.Desc(hashArg)+")")
+				continue
+			}
+			r.Check(ha == ca, rule, key, c.Pos(s.Pos()), "hash and code come from the same account", eng.FuncName(fn)+" calls SetCallCode with the code hash of "+ha+" and the code of "+ca+": the callee's code is analysed and cached under another contract's hash, so its jumps are validated against a bitmap built for different code — a valid JUMP beyond that bitmap's length panics in the bit vector (host crash), and jumps into push data can be accepted")
+		}
+	}
+	r.Check(n >= 3, rule, "code-hash-of-code:sites", "", fmt.Sprintf("%d SetCallCode sites", n), fmt.Sprintf("only %d SetCallCode sites found", n))
 }
